@@ -3,7 +3,9 @@
 Streams
   grammar : random HRGs / FGGs (gen.random_spec) with mixed implicit/explicit ids, finite and range
             domains, dense and patterned weights, infinite entries, arity-0 and arity>0 start:
-            fgg_to_json -> json.dumps -> json.loads -> json_to_fgg (and a second round trip),
+            fgg_to_json -> json.dumps -> json.loads -> json_to_fgg (and a second round trip); a history
+            variant writes the grammar, updates some weights IN PLACE and writes it again (the second
+            document must round-trip to the updated weights),
             judged by Model.JsonCheck.c14_fgg_check (oracle hrg_iso_b + exact comparison with the model).
   weights : patterned weight specifications (physical/expand/vaxes/default) fed to json_to_weights,
             judged against the denotational reading spec_denote (c14_weights_check); PatternedTensors
@@ -278,6 +280,42 @@ def gen_patterned(rng, shape, kinds):
         vals = gen.nested(base_shape, lambda: rng.choices(GRID, GRID_P)[0])
         kinds.add("permuted-dense")
         return PatternedTensor(torch.tensor(vals, dtype=torch.get_default_dtype())).permute(perm)
+    units = [i for i, n in enumerate(shape) if n == 1 and i + 1 < len(shape) and any(m >= 2 for m in shape[i + 1:])]
+    if units and 0 not in shape and rng.random() < 0.5:
+        # a size-1 dimension written as unitAxis, followed by a part that is still sparse, with a
+        # non-zero default: the off-pattern cells below the unit dimension must come out as the default
+        from fggs.indices import PhysicalAxis, SumAxis, unitAxis
+        i0 = rng.choice(units)
+        phys = []; vaxes = []
+        for i, n in enumerate(shape):
+            if i < i0:
+                e, _ = gen_axis(rng, n, phys)
+            elif i == i0 or n == 1:
+                e = unitAxis
+            else:
+                same = [a for a in vaxes[i0 + 1:] if isinstance(a, PhysicalAxis) and a.numel() == n]
+                if same and rng.random() < 0.7:
+                    e = same[0]                                   # diagonal with an earlier dimension after the unit one
+                elif rng.random() < 0.5 or n < 2:
+                    e = PhysicalAxis(n); phys.append(e)
+                else:
+                    m = rng.randint(1, n - 1); b = rng.randint(0, n - m)
+                    k = PhysicalAxis(m); phys.append(k); e = SumAxis(b, k, n - m - b)
+            vaxes.append(e)
+        after = vaxes[i0 + 1:]
+        sparse = any(isinstance(a, SumAxis) for a in after) or len([a for a in after if isinstance(a, PhysicalAxis)]) != len({id(a) for a in after if isinstance(a, PhysicalAxis)})
+        if not sparse:
+            # force a sum axis on the last dimension of size >= 2 after the unit one
+            j = max(i for i in range(i0 + 1, len(shape)) if shape[i] >= 2)
+            if isinstance(vaxes[j], PhysicalAxis) and sum(1 for a in vaxes if a is vaxes[j]) == 1: phys.remove(vaxes[j])
+            n = shape[j]; m = rng.randint(1, n - 1); b = rng.randint(0, n - m)
+            k = PhysicalAxis(m); phys.append(k); vaxes[j] = SumAxis(b, k, n - m - b)
+        paxes = list(dict.fromkeys(phys)); rng.shuffle(paxes)
+        psize = [k.numel() for k in paxes]
+        vals = gen.nested(psize, lambda: rng.choices(GRID, GRID_P)[0])
+        t = torch.tensor(vals, dtype=torch.get_default_dtype()) if psize else torch.tensor(float(vals), dtype=torch.get_default_dtype())
+        kinds.update(["unit-then-sparse", "default!=0"])
+        return PatternedTensor(t, tuple(paxes), tuple(vaxes), rng.choice([0.5, 1.0, 2.0, math.inf]))
     phys = []
     vaxes = []
     for n in shape:
@@ -453,6 +491,30 @@ def _search_iso(r, r2, limit=5000):
             used.discard(j); pn.pop()
         return None
     return go(0, [], set())
+
+def inplace_update(rng, g):
+    """Update the weights of some finite factors IN PLACE (same FiniteFactor, same PatternedTensor object,
+    as an optimizer step or weights.physical.mul_() would), under torch.no_grad().  Returns the number
+    of factors touched.  Exact in float32 on the dyadic grid."""
+    import fggs, torch
+    n = 0
+    with torch.no_grad():
+        for fac in g.factors.values():
+            if not isinstance(fac, fggs.FiniteFactor) or rng.random() < 0.3: continue
+            w = fac.weights
+            op = rng.choice(["mul2", "half", "add1", "copy", "default"])
+            try:
+                if w.physical.numel() == 0 or op == "default":
+                    w.default = {0.0: 1.0, 1.0: 0.5}.get(w.default, 0.0)
+                elif op == "mul2": w.physical.mul_(2.0)
+                elif op == "half": w.physical.mul_(0.5)
+                elif op == "add1": w.physical.add_(1.0)
+                else: w.physical.copy_(torch.full_like(w.physical, 0.25) + w.physical)
+            except RuntimeError:
+                # physical is a broadcast (stride-0) view: not writable in place; change the default instead
+                w.default = {0.0: 1.0, 1.0: 0.5}.get(w.default, 0.0)
+            n += 1
+    return n
 
 def positions(g, g2):
     """For every pair of rules (all_rules order) the bijection (node positions, edge positions) handed to
@@ -722,12 +784,28 @@ def run(tier, seed):
         if is_fgg and rng.random() < 0.05:
             spec["nlabels"][rng.randrange(len(spec["nlabels"]))] = 0      # an empty domain
             spec["features"] = sorted(set(spec["features"]) | {"empty_domain"})
+        if is_fgg and len(spec["nlabels"]) >= 2 and rng.random() < 0.2:
+            k1 = rng.randrange(len(spec["nlabels"]))
+            if spec["nlabels"][k1] != 0:
+                spec["nlabels"][k1] = 1                                   # a domain with a single value
+                spec["features"] = sorted(set(spec["features"]) | {"singleton_domain"})
         ids = rng.choice(["explicit", "explicit", "implicit", "mixed", "mixed"])
         try:
             g, info = build_case(rng, spec, is_fgg, ids)
         except Exception as e:
             violations.append(Violation("harness could not build the grammar: %r" % (e,), case=gen.spec_jsonable(spec),
                                         corr="harness", failing_input_found=False)); continue
+        history = False
+        if is_fgg and rng.random() < 0.3:
+            # history: a first fgg_to_json, then in-place weight updates; everything below (the model's
+            # view of g, the document written, the round trip) is taken AFTER the update, from the live
+            # tensors -- never from a copy of g made before it
+            try:
+                fggs.fgg_to_json(g)
+                history = inplace_update(rng, g) > 0
+            except Exception as e:
+                violations.append(Violation("first fgg_to_json / in-place update raised %r" % (e,), case=gen.spec_jsonable(spec),
+                                            call="fgg_to_json", corr="corr:roundtrip", failing_input_found=False)); continue
         idn = IdNum()
         gw = fggw(g, idn, is_fgg)
         second = all_explicit(g) or rng.random() < 0.3
@@ -740,7 +818,7 @@ def run(tier, seed):
         unused = unused_labels(spec)
         meta = dict(spec=gen.spec_jsonable(spec), ids=ids, is_fgg=is_fgg, json=j, info=dict(info, kinds=sorted(info["kinds"])),
                     unused_labels=[gen.el_name(spec, u) for u in unused],
-                    factor_on_unused_terminal=bool(info.get("factor_on_unused")))
+                    factor_on_unused_terminal=bool(info.get("factor_on_unused")), history=history)
         metas.append(meta); lives.append((g, extra))
         bump("ids", ids); bump("kind", "fgg" if is_fgg else "hrg")
         bump("start_arity", len(spec["elabels"][spec["start"]]["type"]))
@@ -749,6 +827,7 @@ def run(tier, seed):
         for k in info["kinds"]: bump("pattern_kinds", k)
         for f in spec["features"]: bump("features", f)
         if all_explicit(g): bump("features", "all_ids_explicit")
+        if history: bump("features", "history:write,update-in-place,write")
     lap('grammar-impl')
     from concurrent.futures import ThreadPoolExecutor
     pool = ThreadPoolExecutor(4)
@@ -975,6 +1054,8 @@ def replay(path):
         bad = 0
         for k in range(20):
             g, info = build_case(rng, spec, c["is_fgg"], c["ids"])
+            if c.get("history"):
+                fggs.fgg_to_json(g); inplace_update(rng, g)
             idn = IdNum(); gw = fggw(g, idn, c["is_fgg"])
             obs, j, extra = roundtrip(g, c["is_fgg"], True)
             code = run_coq(FGGCHK, [(idn.dec, gw, c["is_fgg"], obs)], tag="replay")[0]
